@@ -228,11 +228,23 @@ pub fn run_midcall(sim: &Sim, _idx: u64) {
     let lazy = sim.chance(1, 2);
     let netcfg = NetCfg { stall_pct: 0, ..NetCfg::draw(sim) };
     let kill_at = sim.pick(&[0u64, 1, 9, 24, 30, 45, 60, 80, 100, 130, 160, 200, 260, 400]) + sim.range(0, 8);
-    let kind = sim.pick(&[KillKind::Eof, KillKind::Reset]);
+    let kind = sim.pick(&[KillKind::Eof, KillKind::Reset, KillKind::Blackhole]);
+    // a silent partition can only be noticed by HTTP/2 keep-alive: it is drawn with a keep-alive
+    // interval configured (with or without an explicit keep-alive timeout) and lands after the
+    // connection handshake; the call must then fail within interval + timeout, not hang
+    let keepalive: Option<(Duration, Option<Duration>, bool)> = if kind == KillKind::Blackhole || sim.chance(1, 4) {
+        Some((Duration::from_secs(sim.pick(&[1u64, 7])), sim.pick(&[None, Some(Duration::from_secs(3))]), sim.chance(1, 2)))
+    } else {
+        None
+    };
+    let kill_at = if kind == KillKind::Blackhole { kill_at.max(160) + sim.pick(&[0u64, 100, 1_000, 4_000]) } else { kill_at };
+    if kind == KillKind::Blackhole {
+        sim.fault("connection-blackholed-with-keepalive-configured");
+    }
     let shape_stream = sim.chance(1, 3);
     sim.nontrivial();
-    sim.sample(|| format!("{} channel; first connection dies ({kind:?}) after {kill_at} bytes; server-streaming={shape_stream}", if lazy { "lazy" } else { "eager" }));
-    sim.ev(|| format!("config: lazy={lazy} kill_at={kill_at} kind={kind:?} stream={shape_stream}"));
+    sim.sample(|| format!("{} channel; first connection dies ({kind:?}) after {kill_at} bytes; server-streaming={shape_stream}; client keep-alive {keepalive:?}", if lazy { "lazy" } else { "eager" }));
+    sim.ev(|| format!("config: lazy={lazy} kill_at={kill_at} kind={kind:?} stream={shape_stream} keepalive={keepalive:?}"));
     let out = run_sim(sim, Duration::from_secs(100_000), || async {
         let (net, connector, rx) = net_and_connector(sim, netcfg, vec![]);
         let handler = Handler::new(sim);
@@ -240,7 +252,7 @@ pub fn run_midcall(sim: &Sim, _idx: u64) {
             handler.add_script(i, Script { msgs: vec![b"pong".to_vec(), sim.bytes(300), sim.bytes(5000)], gap_us: 1000, ..Default::default() });
         }
         let _srv = spawn_server::<std::future::Pending<()>>(&handler, &no_comp(), &ServerOpts::default(), rx, None);
-        let ep = endpoint(&ClientOpts::default());
+        let ep = endpoint(&ClientOpts { keepalive, ..Default::default() });
         // the first connection created dies after `kill_at` bytes
         net.arm_kill_on_next_connection(kill_at, kind);
         let ch = if lazy {
